@@ -38,6 +38,12 @@ CHECKS = {
         text='All words of 1..3 segments (thorough: 4, and 5 under the self/mutual/regex environments) over {a - $A ${A} $AB ${AB} $U ${U} $? $$}, unquoted / double-quoted / single-quoted, under nine variable environments (plain, blank, empty, reference to another variable, self-reference in both spellings, mutual reference, $1, regex-special) installed exported and shell-local, are planned by the real code; the argv must equal a reference single-pass expansion (double-quoted: exactly one argument; single-quoted: literal) and every case must terminate. Words of <= 2 segments are also executed by the real binary.',
         note='Names and values are the bound; word splitting of unquoted results is accepted either way (statement silent).',
         ref='DESIGN.md §4 C10'),
+    'C13': dict(
+        engine='E1 bounded-exhaustive input sweep (in-process plan, substitutions executed) + real binary',
+        technique='exhaustive enumeration of payload x delivery x quoting x position combinations, planned and executed by the real code; oracle = template structure with the payload as argument text only',
+        text='22 payloads containing every operator character alone and embedded are delivered through $V (exported and shell-local), ${V}, $(cmd), backquotes and a file name matched by *, unquoted and double-quoted, at six argument positions; the real planner must keep the template structure (no pipe, background job, extra command, redirection) and pass the payload as argument text (one argument inside double quotes). The same deliveries are executed by the real binary at two positions: helper runs once, in the foreground, no file appears.',
+        note='Payload list is the bound; unquoted results may be split at blanks.',
+        ref='DESIGN.md §4 C13'),
     'C19': dict(
         engine='E1 bounded-exhaustive input sweep (in-process) + real binary',
         technique='bounded-exhaustive enumeration of all expression trees / all strings over the arithmetic alphabet against an exact reference evaluator (differential oracle, no sampling)',
